@@ -1,7 +1,6 @@
 // Package wl ("write log") holds what C12 and C15 share: the tuple universe, the boring reference model
 // (map key -> condition, append-only change list), canonical observation of a store through Read and
-// ReadChanges, backend construction (memory / SQLite over the sqlfault driver) and the quiesce gate used to
-// separate reproducible deviations from scheduling artefacts.
+// ReadChanges, backend construction (memory / SQLite over the sqlfault driver) and process sharding (shard.go).
 package wl
 
 import (
@@ -573,22 +572,4 @@ func NewID() string {
 		panic(err)
 	}
 	return id.String()
-}
-
-// ---------------------------------------------------------------------------------------------------
-// quiesce gate
-
-// Gate lets a worker re-run a suspicious case while every other worker is parked, so that a deviation caused
-// by the harness's own parallelism (process-global state of the code under test, e.g. the shared monotonic
-// ULID entropy) is told apart from a deterministic one.
-type Gate struct{ mu sync.RWMutex }
-
-func (g *Gate) Enter() { g.mu.RLock() }
-func (g *Gate) Leave() { g.mu.RUnlock() }
-
-// Alone runs fn while no other worker is inside Enter/Leave. Must be called outside Enter/Leave.
-func (g *Gate) Alone(fn func()) {
-	g.mu.Lock()
-	defer g.mu.Unlock()
-	fn()
 }
